@@ -287,6 +287,13 @@ func scriptReadSingleton() []Event {
 	return seq(camp(1), prop(1), read(1), prop(1), crash(1, CrashLoseUnsynced), camp(1), read(1), prop(1), read(1))
 }
 
+// scriptReadRemovedLeader: two voters; the leader removes itself and (without
+// StepDownOnRemoval) keeps leading a group it is no member of, while the remaining
+// voter elects itself and commits.
+func scriptReadRemovedLeader() []Event {
+	return seq(camp(1), prop(1), read(1), conf(1, 0), prop(2), read(1), camp(2), prop(2), read(1), read(2))
+}
+
 func scriptReadConf() []Event {
 	return seq(camp(1), prop(1), read(2), conf(1, mRemove1), read(1), read(2), camp(2), read(3), prop(2), read(1))
 }
@@ -397,7 +404,9 @@ func poolSafety(tier string) (p pool) {
 			ddScn("figure8", 3, ids(3), f, scriptFigure8(), k, defaultFaults...),
 			ddScn("restart-stages", 3, ids(3), f, scriptRestartStages(), k, defaultFaults...),
 			ddScn("basic", 3, ids(3), f, scriptBasic(), k+1, defaultFaults...),
+			split(ddScn("failover", 3, ids(3), f, scriptFailover(), k, defaultFaults...)),
 		)
+		p.bfs = append(p.bfs, split(bfsReplicate(f, 2)))
 	}
 	return
 }
@@ -406,7 +415,36 @@ func poolElection(tier string) (p pool) {
 	for _, f := range []feat{syncF, asyncF, pvF} {
 		p.bfs = append(p.bfs, bfsDueling(f, 3, 2, 3), bfsDueling(f, 3, 2, 3, int(BDup), 1), bfsDueling(f, 3, 2, 3, int(BCrash), 1))
 	}
+	p.bfs = append(p.bfs, bfsCandidateCrash(asyncF), bfsCandidateCrash(syncF))
 	return
+}
+
+// bfsCandidateCrash: node 1 campaigns (twice at most), may crash once at any point
+// (in async mode: with its term and vote still in the append queue), proposes.
+func bfsCandidateCrash(f feat) *Scenario {
+	s := newSc("bfs/candidate-crash/"+f.tag(), 3, ids(3), f.cfg())
+	s.budget(int(BCampaign), 2, int(BCrash), 1, int(BPropose), 1)
+	s.CampaignNodes = []uint8{1}
+	s.CrashNodes = []uint8{1}
+	s.ProposeNodes = []uint8{1}
+	s.CrashFlags = []int{0}
+	s.MaxTerm = 2
+	return s
+}
+
+// split: the same scenario with Ready / apply / Advance as separate steps (sync) or
+// with self-addressed storage responses queued (async), so that calls interleave
+// with an outstanding Ready and apply lags behind commit.
+func split(s *Scenario) *Scenario {
+	c := *s
+	if c.cfg(0).Async {
+		c.LazyLocal = true
+		c.Name += "/lazy-local"
+	} else {
+		c.SplitReady = true
+		c.Name += "/split"
+	}
+	return &c
 }
 
 func poolSnapshot(tier string) (p pool) {
@@ -417,6 +455,7 @@ func poolSnapshot(tier string) (p pool) {
 		p.dd = append(p.dd,
 			ddScn("snapshot", 3, ids(3), f, scriptSnapshot(), k, fl...),
 			ddScn("snapshot-restart", 3, ids(3), f, scriptSnapshotRestart(), k, fl...),
+			split(ddScn("snapshot", 3, ids(3), f, scriptSnapshot(), k, fl...)),
 		)
 	}
 	return
@@ -431,6 +470,12 @@ func poolConf(tier string) (p pool) {
 			confSc("joint", f, scriptJoint(), k, defaultFaults...),
 			confSc("conf+failover", f, scriptConfFailover(), k, defaultFaults...),
 		)
+	}
+	for _, f := range []feat{syncF, asyncF} {
+		cb := append([]int{int(BProposeConf), 1}, defaultFaults...)
+		j := confSc("joint", f, scriptJoint(), k, cb...)
+		j.ConfNodes = []uint8{1}
+		p.dd = append(p.dd, split(j), split(confSc("simple-conf", f, scriptSimpleConf(), k, cb...)))
 	}
 	for _, f := range []feat{syncF, asyncF} {
 		p.bfs = append(p.bfs,
@@ -450,6 +495,9 @@ func poolRead(tier string) (p pool) {
 		p.dd = append(p.dd, rc)
 		one := ddScn("read-singleton", 1, ids(1), f, scriptReadSingleton(), k+1, int(BRead), 1, int(BCrash), 1, int(BPropose), 1)
 		p.dd = append(p.dd, one)
+		rl := ddScn("read-removed-leader", 2, ids(2), f, scriptReadRemovedLeader(), k, int(BRead), 1, int(BDrop), 1, int(BPropose), 1)
+		rl.ConfMenu = []ConfSpec{{Changes: "r1"}}
+		p.dd = append(p.dd, rl)
 	}
 	for _, f := range []feat{syncF, asyncF} {
 		p.bfs = append(p.bfs, bfsRead(f, 2, int(BCampaign), 1, int(BPropose), 1), bfsRead(f, 2, int(BDrop), 1, int(BCampaign), 1))
